@@ -43,13 +43,11 @@ MUTANTS = [
      "    i = sexp_write_string_n(ctx, sexp_bytes_data(tmp1), sexp_unbox_fixnum(_ARG2), _ARG3);"),
     ("undo-fix-string-cmp-nul", "eval.c", "    diff = memcmp(sexp_string_data(str1), sexp_string_data(str2), len);", "    diff = strncmp(sexp_string_data(str1), sexp_string_data(str2), len);"),
     ("string->utf8-range-in-bytes", "lib/chibi/io/io.scm", "        (string->utf8 (substring str start end)))", "        (subbytes (%string->utf8 str) start end))"),
-    ("write-string-count-bound-in-chars", "vm.c", "      k = sexp_string_size(_ARG1);\n#endif", "      k = sexp_unbox_fixnum(sexp_string_length(_ARG1));\n#endif"),
+    ("write-string-count-bound-in-chars", "vm.c", "      k = sexp_string_size(_ARG1);\n#endif", "      k = sexp_string_length(_ARG1);\n#endif"),
     ("string-copy!-always-forward", "lib/scheme/extras.scm", "         (limit (min end (+ start (- (string-length to) at)))))\n    (if (<= at start)", "         (limit (min end (+ start (- (string-length to) at)))))\n    (if (<= 0 start)"),
     ("string-find-right-misses-start", "lib/chibi/string.scm", "        (cond ((string-cursor<? i2 start) start)\n              ((pred (string-cursor-ref str i2)) i)", "        (cond ((string-cursor<=? i2 start) start)\n              ((pred (string-cursor-ref str i2)) i)"),
     ("string-fill!-default-end-in-bytes", "lib/init-7.scm", "        (end (if (and (pair? o) (pair? (cdr o))) (cadr o) (string-length str))))\n    (let lp ((i (- end 1)))\n      (if (>= i start) (begin (string-set! str i ch)",
      "        (end (if (and (pair? o) (pair? (cdr o))) (cadr o) (string-size str))))\n    (let lp ((i (- end 1)))\n      (if (>= i start) (begin (string-set! str i ch)"),
-    ("read-string!-stops-one-early-after-multibyte", "lib/chibi/io/io.scm", "      (cond ((or (= i n) (eof-object? (peek-char in))) i)\n            (else (string-set! str i (read-char in)) (lp (+ i 1))))))))",
-     "      (cond ((or (= i n) (eof-object? (peek-char in))) i)\n            (else (string-set! str i (read-char in)) (lp (if (= (string-size str) (string-length str)) (+ i 1) (+ i 1 (quotient i 4)))))))))))"),
     ("concat-length", "sexp.c", "    len = sexp_string_size(sexp_car(ls));\n    memcpy(p, sexp_string_data(sexp_car(ls)), len);", "    len = sexp_string_length(sexp_car(ls));\n    memcpy(p, sexp_string_data(sexp_car(ls)), len);"),
 ]
 
